@@ -54,6 +54,7 @@ fn run_plain(
   mut restore: impl FnMut(),
 ) {
   for cfg in cfgs {
+    util::set_context(json!({"engine": "nofail", "cfg": cfg.label(), "history": e.rendered}).to_string());
     restore();
     let index = match fresh(cfg) {
       Ok(i) => i,
@@ -64,7 +65,7 @@ fn run_plain(
     };
     for txs in blocks {
       push(txs);
-      match util::catch(|| index.update()) {
+      match util::catch(|| util::watched(|| index.update())) {
         Ok(Ok(())) => {}
         Ok(Err(err)) => {
           e.fail("C16", "update/error", format!("configuration {}: Index::update returned an error on a valid chain: {err:#}", cfg.label()));
@@ -300,7 +301,7 @@ fn run_adversarial(a: &Adversarial, cfgs: &[IndexCfg], e: &mut Exec) {
       world.push_block(txs.clone());
       // update in batches of blocks to keep the run short, but always after a case block
       if txs.len() > 1 || i + 1 == a.blocks.len() {
-        match util::catch(|| index.update()) {
+        match util::catch(|| util::watched(|| index.update())) {
           Ok(Ok(())) => {}
           Ok(Err(err)) => {
             e.fail("C16", "update/error/adversarial-batch", format!("configuration {}: Index::update returned an error on block {} of the adversarial batch: {err:#}", cfg.label(), i + 1));
